@@ -3,7 +3,10 @@
         _R_DATE          = ^(?P<year>\d{4})-(?P<month>\d{2})-(?P<day>\d{2})$
         _R_DATETIME      = ^\d{4}-\d{2}-\d{2}T\d{2}:\d{2}:\d{2}(?:\.\d{1,6})?(?:Z|[+-]\d{2}:\d{2})$
         _R_DATETIME_ZULU = Z$                      (.sub('+00:00', text))
-   and the consequence for Model/CalendarRx.v:   iso_parse_rx off_utc s = DOk (iso_parse off_utc s)   for EVERY s.
+        _R_DATETIME_MICROSECOND = \.(\d{6})  (.search)      _R_DATETIME_TZ_CLEANUP = ([+-]\d\d:\d\d):\d\d$  (.sub(r'\1', text))
+   and the consequences for Model/CalendarRx.v:
+        iso_parse_rx off_utc s = DOk (iso_parse off_utc s)                           for EVERY string s,
+        iso_format_rx off_local off_utc w = iso_format off_local off_utc w           for every w, offsets below 24 h.
    Route: Proofs/RegexEval.v (engine with its fuel = the structural evaluator ev); a repeat {n,n} of a one-character
    pattern reads exactly n such characters (ev_exact), a repeat {mn,mx} in front of a continuation that refuses every
    such character reads the longest run up to mx (ev_range).
